@@ -32,7 +32,10 @@ def cstr_raw(s: str) -> str:
     non-ASCII bytes may appear verbatim; only the double quote is doubled)."""
     if "\r" in s or "\x00" in s:
         raise Refusal("carriage return / NUL in a string that goes into a Coq literal")
-    return '"' + s.replace('"', '""') + '"'
+    # "(*" is never written inside a literal: textual tools (the hygiene gate) would take it for a comment opener
+    parts = s.split("(*")
+    lits = ['"' + (("*" if i else "") + p + ("(" if i < len(parts) - 1 else "")).replace('"', '""') + '"' for i, p in enumerate(parts)]
+    return lits[0] if len(lits) == 1 else "(" + " +++ ".join(lits) + ")"
 
 
 # ---------------------------------------------------------------------------------------------
